@@ -8,6 +8,7 @@ import (
 	"sort"
 	"strings"
 	"sync"
+	"time"
 
 	"github.com/insomniacslk/dhcp/dhcpv4"
 )
@@ -259,6 +260,13 @@ func oracleC01(r *Rng, n int, thorough bool, seeds []string) *OracleResult {
 				res.fail(Failure{Oracle: "c01", Input: fmt.Sprintf("concurrent-round-trips workers=%d rounds=%d worker=%d", workers, rounds, w), What: "FromBytes(ToBytes(p)) != p while other goroutines encode other packets: " + b, Class: "v4-roundtrip-concurrent"})
 				break
 			}
+		}
+	}
+	{
+		res.Evaluations++
+		res.Tags["shared-packet-encoded-concurrently"]++
+		if w := runProbe("shared-encode", 60*time.Second); w != "" {
+			res.fail(Failure{Oracle: "c01", Input: "probe shared-encode workers=8 rounds=6000", What: w, Class: "v4-roundtrip-shared-concurrent"})
 		}
 	}
 	for _, s := range seeds {
